@@ -9,6 +9,7 @@ import MatidGen.Radii
 import MatidGen.Centring
 import MatidGen.WyckoffRule
 import MatidGen.DimRule
+import MatidGen.ClusterRule
 
 open Matid Matid.Parse
 
@@ -298,6 +299,28 @@ def opInertia (args : List String) : String :=
 
 end geom
 
+/-- `cluster <initial indices a.b.c> <ops: M | D | S:a.b.c separated by ;>` -/
+def opCluster (args : List String) : String :=
+  open Matid.ClusterCache in
+  let parseIdx (s : String) : Option (List Nat) := if s == "" || s == "-" then some [] else (s.splitOn ".").mapM String.toNat?
+  let showIdx (l : List Nat) : String := if l.isEmpty then "-" else ".".intercalate (l.map toString)
+  match args with
+  | [initS, opsS] =>
+    let ops? : Option (List Op) := (opsS.splitOn ";").mapM fun o =>
+      if o == "M" then some Op.getMatrix else if o == "D" then some Op.getDim
+      else match o.splitOn ":" with
+        | ["S", l] => (parseIdx l).map Op.setIndices
+        | _ => none
+    match parseIdx initS, ops? with
+    | some l, some ops =>
+      let (_, outs) := run MatidGen.ClusterRule.invalidatesOnSet (init l) ops
+      "|".intercalate (outs.map fun o => match o with
+        | .unit => "-"
+        | .matrix m => "M:" ++ showIdx m
+        | .dim m a => "D:" ++ showIdx m ++ "/" ++ showIdx a)
+    | _, _ => "bad-op"
+  | _ => "bad-op"
+
 def step (line : String) : String :=
   match words line with
   | "radii" :: args => opRadii args
@@ -317,6 +340,7 @@ def step (line : String) : String :=
   | "cartesian" :: args => opFrame false args
   | "mincell" :: args => opMinCell args
   | "inertia" :: args => opInertia args
+  | "cluster" :: args => opCluster args
   | _ => "bad-op"
 
 partial def loop (h : IO.FS.Stream) (out : IO.FS.Stream) : IO Unit := do
